@@ -45,7 +45,7 @@ def handleLIndex (_c : Ctx) (cmd : List Bytes) : Prog Res :=
         else .ret (.ok (bulkStr (l.getD i.toNat [])))
   | _ => .ret (.err wrongArgs)
 
-/-- index arithmetic of handleLRange :98-:133. The bounds check of `list[i]` is kept as the `panic` branch;
+/-- index arithmetic of handleLRange :98-:131. The bounds check of `list[i]` is kept as the `panic` branch;
     `lrangePure_eq` (Lemmas.ListLemmas) shows it is unreachable. -/
 def lrangePure (l : List Bytes) (start end_ : Int) : Outcome Res :=
   let len : Int := l.length
@@ -77,7 +77,7 @@ def handleLRange (_c : Ctx) (cmd : List Bytes) : Prog Res :=
         | some e => Prog.ofOutcome (lrangePure l s e)
   | _ => .ret (.err wrongArgs)
 
-/-- :132 handleLSet -/
+/-- :136 handleLSet -/
 def handleLSet (_c : Ctx) (cmd : List Bytes) : Prog Res :=
   match cmd with
   | [_, key, idx, v] =>
@@ -135,7 +135,7 @@ def handleLTrim (_c : Ctx) (cmd : List Bytes) : Prog Res :=
           | .store xs => setOrErr [(key, .list xs)] (.ret (.ok okReply))
   | _ => .ret (.err wrongArgs)
 
-/-- forward scan of handleLRem :263-:287: on a match at i the element is removed and i is stepped back, so
+/-- forward scan of handleLRem :267-:287: on a match at i the element is removed and i is stepped back, so
     the element that slid into position i is examined next. `budget = none` means "all" (count 0). -/
 def lremFwd : List Bytes → Bytes → Option Nat → List Bytes
   | [], _, _ => []
@@ -144,14 +144,14 @@ def lremFwd : List Bytes → Bytes → Option Nat → List Bytes
     else if x == v then lremFwd r v (budget.map (· - 1))
     else x :: lremFwd r v budget
 
-/-- backward scan :290-:299 -/
+/-- backward scan :290-:298 -/
 def lremBwd (l : List Bytes) (v : Bytes) (budget : Nat) : List Bytes :=
   let rec go : List Bytes → Nat → List Bytes
     | [], _ => []
     | x :: r, n => if n == 0 then x :: r else if x == v then go r (n - 1) else x :: go r n
   (go l.reverse budget).reverse
 
-/-- :233 handleLRem -/
+/-- :237 handleLRem -/
 def handleLRem (_c : Ctx) (cmd : List Bytes) : Prog Res :=
   match cmd with
   | [_, key, cnt, v] =>
@@ -186,19 +186,21 @@ def handleLMove (_c : Ctx) (cmd : List Bytes) : Prog Res :=
       .call (.getValues [src, dst]) fun (vs : List Val) =>
       match asList? (vs.getD 0 .nil), asList? (vs.getD 1 .nil) with
       | some sl, some dl =>
-        -- :337 an empty source list has no element to move
+        -- :338 an empty source list has no element to move
         if sl.isEmpty then .ret (.ok nilBulk) else
         match (if wf == b "left" then sl.head? else sl.getLast?) with
         | none => .panic "slice bounds out of range (empty source)"   -- unreachable: `sl` is not empty
         | some e =>
           let sl' := if wf == b "left" then sl.drop 1 else sl.dropLast
+          -- :344 same key: the element goes back into what is left of the list (rotation)
+          let dl := if src == dst then sl' else dl
           let dl' := if wt == b "left" then e :: dl else dl ++ [e]
           -- map literal {source: …, destination: …}: a repeated key keeps the destination value
           setOrErr [(src, .list sl'), (dst, .list dl')] (.ret (.ok okReply))
       | _, _ => .ret (.err (b "both source and destination must be lists"))
   | _ => .ret (.err wrongArgs)
 
-/-- :357 handleLPush / :396 handleRPush (LPUSH, LPUSHX, RPUSH, RPUSHX) -/
+/-- :385 handleLPush / :424 handleRPush (LPUSH, LPUSHX, RPUSH, RPUSHX) -/
 def handlePush (left : Bool) (_c : Ctx) (cmd : List Bytes) : Prog Res :=
   if cmd.length < 3 then .ret (.err wrongArgs) else
   match cmd with
@@ -220,7 +222,7 @@ def handlePush (left : Bool) (_c : Ctx) (cmd : List Bytes) : Prog Res :=
     else tail
   | _ => .ret (.err wrongArgs)
 
-/-- :434 handlePop (LPOP / RPOP) -/
+/-- :462 handlePop (LPOP / RPOP) -/
 def handlePop (_c : Ctx) (cmd : List Bytes) : Prog Res :=
   if cmd.length < 2 || cmd.length > 3 then .ret (.err wrongArgs) else
   match cmd with
